@@ -573,10 +573,11 @@ func (c *c14hRunner) history(fv *c14hFirst, sp *c14hSpec, op1, mid, op2 string) 
 	if mid == "again" {
 		steps = 2
 	}
+	k1 := ""
 	for s := 0; s < steps; s++ {
 		res1 := c14hRunOp(&o.vals[0], op1)
 		c.evals++
-		k1 := c14hKind(res1)
+		k1 = c14hKind(res1)
 		switch {
 		case k1 == "panic":
 			c.violation("history:"+c14api[op1]+":panic:first-value", h, func() string {
@@ -606,7 +607,7 @@ func (c *c14hRunner) history(fv *c14hFirst, sp *c14hSpec, op1, mid, op2 string) 
 	c.evals++
 	k2 := c14hKind(res2)
 	after := func() string {
-		s := fmt.Sprintf("after %s on the %s value %s (rejected)", c14api[op1], fv.cls, fv.g)
+		s := fmt.Sprintf("after %s on the %s value %s (%s)", c14api[op1], fv.cls, fv.g, k1)
 		if mid == "again" {
 			s += ", twice"
 		}
